@@ -65,6 +65,7 @@ def run(ctx):
         ctx.sample({"stage": "free", "event": e})
     ctx.evaluations += runs
     ctx.nontrivial += runs
+    mm.tinv(ctx, "min", 20000 if ctx.thorough() else 6000)
     c = cli_runs(ctx)
     vlib.validate_trace(ctx, "MinOutTrace", c, "CLI min -p s2m|m2s, m 7..28", "reset")
     ctx.exhaustive = False
